@@ -466,6 +466,21 @@ def processConc (h : Hist) (b : Block) (otoks : List String) : Hist :=
               | _ => none
           | none => []
         | _ => []
+      -- C02 / C04 under concurrency: a join that is refused relays nothing - in particular not the requester's departure
+      let refusedLeaves : List String := tasks.filterMap fun (t : Nat × Option Req) =>
+        match t.2, h.srv.locate t.1 with
+        | some (.join rid _ _), some (s, p) =>
+          let mine := inboxOf t.1 b.ds
+          let refused := mine.any (fun (o : Out) => match o with | .error r _ => r == rid | _ => false) &&
+                         !mine.any (fun (o : Out) => match o with | .joinResp r _ _ _ => r == rid | _ => false)
+          let told := b.ds.filter fun (d : Delivery) => d.2 == .leaveBcast p.pid && (s.parts.any fun q => q.conn == d.1)
+          if refused && !told.isEmpty then
+            some s!"connection {t.1} (participant {p.pid} of session {s.id}) is refused its join request {rid}, and connections {told.map Prod.fst} are told it left"
+          else none
+        | _, _ => none
+      let viol := if refusedLeaves.isEmpty then viol else
+        (viol.push ("C02", "refused-request-relayed", flatS s!"{" ".intercalate b.ev} :: {refusedLeaves}")).push
+          ("C04", "refused-request-changed-state", flatS s!"{" ".intercalate b.ev} :: {refusedLeaves}")
       let viol := if lateRelays.isEmpty then viol else
         viol.push ("C03", "relay-from-a-session-already-left", flatS s!"{" ".intercalate b.ev} :: {lateRelays}")
       let viol := if relayIssues.isEmpty then viol else
